@@ -4,7 +4,7 @@ set -e
 cd "$(dirname "$0")"
 export CARGO_NET_OFFLINE=true
 ./check --selfcheck
-if [ -f replay/Cargo.toml ]; then
-  (cd replay && CARGO_TARGET_DIR=/verif/target/replay cargo build --release --offline -q) || echo "replay crate did not build (witness search unavailable)"
+if [ -f replay/Cargo.toml.in ]; then
+  python3 -c "import sys; sys.path.insert(0, \".\"); from vf import replay; print(replay.build_driver())"
 fi
 echo setup ok
